@@ -127,6 +127,9 @@ type BuildArtifact struct {
 	Certificate *cert.Certificate
 	PrivateKey  crypto.PrivateKey
 	Request     *cert.CertificateRequest
+
+	//set if there is a private key that could not be used (see cert.PemFileContent)
+	UnusableKey error
 }
 
 func needsUpdate(backend Database, strat UpdateStrategy, alias string, cfg *config.CertificateContent) bool {
@@ -364,6 +367,12 @@ func GenerateArtifacts(backend Database, alias string) (*BuildArtifact, error) {
 
 	if subjectArtifact == nil {
 		subjectArtifact = &BuildArtifact{}
+	}
+
+	//a key we can't use is not ours to replace by a new one
+	if subjectArtifact.PrivateKey == nil && subjectArtifact.UnusableKey != nil {
+		return nil, fmt.Errorf("db: '%v' already has a private key, but it can't be used (%v). it is not replaced: remove it to get a new one",
+			alias, subjectArtifact.UnusableKey)
 	}
 
 	logging.Debugf("generating new certificate body for %v", alias)
